@@ -1,0 +1,10 @@
+//go:build verif
+
+package kademlia
+
+// Verification hooks, compiled only with -tags verif.
+
+// VerifDhtIterate runs dhtIterate: fn is called with the closest candidate that has not been contacted yet.
+func VerifDhtIterate(nodes []NodeInfo, key []byte, n int, fn func(NodeInfo) ([]NodeInfo, bool)) {
+	dhtIterate(nodes, key, n, fn)
+}
